@@ -54,6 +54,7 @@ func (s *worldState) Apply(i int, check bool) (vs []eng.Violation) {
 				vs = append(vs, eng.Violation{Assert: "no-panic", Witness: "panic in " + labelClass(ops[i].label), Detail: fmt.Sprintf("%s: panic: %v", ops[i].label, r)})
 			}
 		}()
+		s.w.PointRead()
 		vs = ops[i].run()
 	}()
 	if check && !s.w.Poisoned {
